@@ -143,7 +143,8 @@ Definition new_file_info (bkt : str) (objs : gstore) (name : str) : gerr + ginfo
     | inr sz => inr (mkGI name false sz)
     | inl GEmptyName => inr (mkGI (ensure_trailing name) true folder_size)
     | inl GObjNotExist =>
-      match list_page objs path with
+      (* the folder probe: Query{Prefix: path+"/"} since the fix, the bare path before *)
+      match list_page objs (if Z.eqb gcs_fileinfo_prefix_sep 1 then ensure_trailing path else path) with
       | [] => inl GENOENT
       | _ :: _ => inr (mkGI (ensure_trailing name) true folder_size)
       end
